@@ -1362,6 +1362,176 @@ example : reverse tOps = Spec.reverse tOps := by
   exact List.set_comm _ _ hne.symm
 
 
+/-! ## sort: the result is a permutation (§15.4.4.11, first bullet of the postcondition) -/
+
+/-- exchange positions i and j -/
+def swapL (i j : Nat) (s : List (Option Val)) : List (Option Val) :=
+  (s.set i (s.getD j none)).set j (s.getD i none)
+
+theorem swapL_length (i j : Nat) (s : List (Option Val)) : (swapL i j s).length = s.length := by
+  simp [swapL]
+
+theorem swapL_perm (i j : Nat) (s : List (Option Val)) (hi : i < s.length) (hj : j < s.length) :
+    (swapL i j s).Perm s := by
+  rw [List.perm_iff_count]
+  intro b
+  have hxi : s.getD i none = s[i] := by simp [List.getD, hi]
+  have hxj : s.getD j none = s[j] := by simp [List.getD, hj]
+  simp only [swapL, hxi, hxj]
+  have hj' : j < (s.set i s[j]).length := by simpa using hj
+  rw [List.count_set hj', List.count_set hi]
+  have h1 : (s.set i s[j])[j] = s[j] := by
+    rw [List.getElem_set]; split
+    · rfl
+    · rfl
+  rw [h1]
+  have hmem : (if (s[i] == b) = true then 1 else 0) ≤ List.count b s := by
+    split
+    · rename_i h
+      have : s[i] = b := by simpa using h
+      rw [← this]
+      exact List.one_le_count_iff.mpr (List.getElem_mem hi)
+    · omega
+  generalize List.count b s = c at *
+  generalize (if (s[i] == b) = true then 1 else 0) = a at *
+  generalize (if (s[j] == b) = true then 1 else 0) = d
+  omega
+
+/-- on the total array-like `tOps`, arraySortSwap exchanges the two positions -/
+theorem sortSwap_tOps (i j : Nat) (s : List (Option Val)) (hi : i < s.length) (hj : j < s.length) :
+    sortSwap tOps i j s = .ok () (swapL i j s) := by
+  have hxi : s.getD i none = s[i] := by simp [List.getD, hi]
+  have hxj : s.getD j none = s[j] := by simp [List.getD, hj]
+  simp only [sortSwap, tOps, swapL, hxi, hxj, bind, M.bind]
+  cases hvi : s[i] with
+  | none =>
+    cases hvj : s[j] with
+    | none =>
+      simp
+      -- both absent: nothing happens, and exchanging two holes changes nothing
+      have e1 : s.set i none = s := by
+        apply List.ext_getElem (by simp)
+        intro n h1 h2
+        rw [List.getElem_set]; split
+        · rename_i h; subst h; exact hvi.symm
+        · rfl
+      rw [e1]
+      apply List.ext_getElem (by simp)
+      intro n h1 h2
+      rw [List.getElem_set]; split
+      · rename_i h; subst h; exact hvj
+      · rfl
+    | some y =>
+      simp
+      by_cases hij : i = j
+      · subst hij; rw [hvi] at hvj; cases hvj
+      · rw [List.set_comm _ _ (fun e => hij e.symm)]
+  | some x =>
+    cases hvj : s[j] with
+    | none => simp
+    | some y => simp
+
+
+/-- the state is a rearrangement of s0 -/
+def Rearr (s0 s : List (Option Val)) : Prop := s.Perm s0 ∧ s.length = s0.length
+
+theorem rearr_swap (s0 s : List (Option Val)) (i j : Nat) (h : Rearr s0 s) (hi : i < s0.length) (hj : j < s0.length) :
+    ∃ s', sortSwap tOps i j s = .ok () s' ∧ Rearr s0 s' := by
+  obtain ⟨hp, hl⟩ := h
+  refine ⟨swapL i j s, sortSwap_tOps i j s (by omega) (by omega), ?_, ?_⟩
+  · exact (swapL_perm i j s (by omega) (by omega)).trans hp
+  · rw [swapL_length]; exact hl
+
+theorem step_good (E : Env) (cmp : SortCmp) (s0 s : List (Option Val)) (right index : Nat) (c : Nat × Nat)
+    (h : Rearr s0 s) (hr : right < s0.length) (hi : index < right) (h1 : c.1 ≤ c.2) (h2 : c.2 ≤ index) :
+    ∃ c' s', sortPartitionStep tOps E cmp right index c s = .ok c' s' ∧ Rearr s0 s' ∧
+      c'.1 ≤ c'.2 ∧ c'.2 ≤ index + 1 ∧ c.1 ≤ c'.1 := by
+  simp only [sortPartitionStep]
+  split
+  · obtain ⟨s1, e1, r1⟩ := rearr_swap s0 s index c.1 h (by omega) (by omega)
+    simp only [bind, M.bind, e1]
+    by_cases hlt : c.1 < c.2
+    · obtain ⟨s2, e2, r2⟩ := rearr_swap s0 s1 index c.2 r1 (by omega) (by omega)
+      simp only [hlt, if_true, bind, M.bind, e2, pure, M.pure]
+      exact ⟨_, _, rfl, r2, by simp only []; omega, by simp only []; omega, by simp only []; omega⟩
+    · simp only [hlt, if_false, pure, M.pure]
+      exact ⟨_, _, rfl, r1, by simp; omega, by simp; omega, by simp⟩
+  · split
+    · obtain ⟨s1, e1, r1⟩ := rearr_swap s0 s index c.2 h (by omega) (by omega)
+      simp only [bind, M.bind, e1, pure, M.pure]
+      exact ⟨_, _, rfl, r1, by simp only []; omega, by simp only []; omega, by simp only []; omega⟩
+    · exact ⟨c, s, rfl, h, h1, by omega, Nat.le_refl _⟩
+
+theorem loop_good (E : Env) (cmp : SortCmp) (s0 : List (Option Val)) (right : Nat) (hr : right < s0.length) :
+    ∀ (n index : Nat) (c : Nat × Nat) (s : List (Option Val)), Rearr s0 s → index + n = right → c.1 ≤ c.2 → c.2 ≤ index →
+      ∃ c' s', foldUp (sortPartitionStep tOps E cmp right) index n c s = .ok c' s' ∧ Rearr s0 s' ∧
+        c'.1 ≤ c'.2 ∧ c'.2 ≤ right ∧ c.1 ≤ c'.1 := by
+  intro n
+  induction n with
+  | zero =>
+    intro index c s h he h1 h2
+    exact ⟨c, s, rfl, h, h1, by omega, Nat.le_refl _⟩
+  | succ n ih =>
+    intro index c s h he h1 h2
+    obtain ⟨c1, s1, e1, r1, g1, g2, g3⟩ := step_good E cmp s0 s right index c h hr (by omega) h1 h2
+    obtain ⟨c2, s2, e2, r2, k1, k2, k3⟩ := ih (index + 1) c1 s1 r1 (by omega) g1 g2
+    refine ⟨c2, s2, ?_, r2, k1, k2, by omega⟩
+    simp only [foldUp, bind, M.bind, e1]
+    exact e2
+
+theorem partition_good (E : Env) (cmp : SortCmp) (s0 s : List (Option Val)) (left right pivot : Nat)
+    (h : Rearr s0 s) (hr : right < s0.length) (hlr : left ≤ right) (hp : pivot ≤ right) :
+    ∃ p p2 s', sortPartition tOps E cmp left right pivot s = .ok (p, p2) s' ∧ Rearr s0 s' ∧
+      left ≤ p ∧ p ≤ p2 ∧ p2 ≤ right := by
+  obtain ⟨s1, e1, r1⟩ := rearr_swap s0 s pivot right h (by omega) hr
+  obtain ⟨c, s2, e2, r2, g1, g2, g3⟩ := loop_good E cmp s0 right hr (right - left) left (left, left) s1 r1 (by omega)
+    (Nat.le_refl _) (Nat.le_refl _)
+  obtain ⟨s3, e3, r3⟩ := rearr_swap s0 s2 c.2 right r2 (by omega) hr
+  refine ⟨c.1, c.2, s3, ?_, r3, g3, g1, g2⟩
+  simp only [sortPartition, bind, M.bind, e1, e2, e3, pure, M.pure]
+
+theorem quick_good (E : Env) (cmp : SortCmp) (s0 : List (Option Val)) :
+    ∀ (fuel left right : Nat) (s : List (Option Val)), Rearr s0 s → right < s0.length →
+      ∃ s', sortQuick tOps E cmp fuel left right s = .ok () s' ∧ Rearr s0 s' := by
+  intro fuel
+  induction fuel with
+  | zero => intro left right s h _; exact ⟨s, rfl, h⟩
+  | succ f ih =>
+    intro left right s h hr
+    simp only [sortQuick]
+    by_cases hlt : left < right
+    · simp only [hlt, if_true, bind, M.bind]
+      obtain ⟨p, p2, s1, e1, r1, g1, g2, g3⟩ :=
+        partition_good E cmp s0 s left right (left + (right - left) / 2) h hr (by omega) (by omega)
+      rw [e1]
+      simp only
+      by_cases hp : p > 0
+      · obtain ⟨s2, e2, r2⟩ := ih left (p - 1) s1 r1 (by omega)
+        obtain ⟨s3, e3, r3⟩ := ih (p2 + 1) right s2 r2 hr
+        simp only [hp, if_true, bind, M.bind, e2, e3]
+        exact ⟨s3, rfl, r3⟩
+      · obtain ⟨s3, e3, r3⟩ := ih (p2 + 1) right s1 r1 hr
+        simp only [hp, if_false, bind, M.bind, pure, M.pure, e3]
+        exact ⟨s3, rfl, r3⟩
+    · simp only [hlt, if_false]
+      exact ⟨s, rfl, h⟩
+
+/-- **sort_permutation** (§15.4.4.11): on an array-like whose [[Put]]/[[Delete]] cannot fail, for every comparefn
+    (consistent or not, or none) sort returns the receiver and leaves a permutation of its elements — present
+    values and holes alike are only moved, never lost, duplicated or invented. -/
+theorem sort_permutation (E : Env) (cmp : SortCmp) (s : List (Option Val)) :
+    ∃ s', sort tOps E true cmp s = .ok (.val .recv) s' ∧ s'.Perm s ∧ s'.length = s.length := by
+  simp only [sort, Bool.not_true, Bool.false_eq_true, if_false]
+  by_cases h1 : tOps.len s > 1
+  · simp only [h1, if_true, bind, M.bind]
+    have hlen : tOps.len s = s.length := rfl
+    obtain ⟨s', e, r⟩ := quick_good E cmp s (tOps.len s) 0 (tOps.len s - 1) s ⟨List.Perm.refl _, rfl⟩ (by omega)
+    rw [e]
+    exact ⟨s', rfl, r.1, r.2⟩
+  · simp only [h1, if_false]
+    exact ⟨s, rfl, List.Perm.refl _, rfl⟩
+
+
 /-! ## Witnesses: each deviation region is inhabited (kernel-checked by `decide`) -/
 
 /-- a small array-like used by the witnesses and non-vacuity examples -/
@@ -1428,6 +1598,22 @@ example :
     isErr (arrayDefineOwnProperty E0 .length { v := some (.int 1) } true o) = true
       ∧ isErr (Spec.arrayDefineOwn E0 .length { v := some (.int 1) } true o) = false := by decide
 
+
+
+/-- sort_comparator_infinite: comparefn returning ±Infinity — otto sees 0 for every pair, ES5 the sign -/
+def intCmp : Val → Val → Int
+  | .int a, .int b => if a < b then -1 else if a > b then 1 else 0
+  | _, _ => 0
+
+example : stateOf (sort tOps E0 true (some fun _ _ => 0) [some (.int 3), some (.int 1), some (.int 2)])
+      = [some (.int 3), some (.int 2), some (.int 1)]
+    ∧ stateOf (Spec.sort tOps E0 true (some intCmp) [some (.int 3), some (.int 1), some (.int 2)])
+      = [some (.int 1), some (.int 2), some (.int 3)] := by decide
+
+/-- non-vacuity of sort_permutation, and what the default sort does with undefined and holes -/
+example : stateOf (sort tOps { pn := fun _ => .nan, ts := fun v => match v with | .int i => dec i.toNat | _ => [] } true none
+      [some (.int 3), none, some (.int 10), some .undef, some (.int 2)])
+    = [some (.int 10), some (.int 2), some (.int 3), some .undef, none] := by decide
 
 /-! ## The length invariant: consequences, transfer to §15.4.5.1, non-vacuity -/
 
